@@ -97,8 +97,10 @@ class Ctx:
         self.distinct.add("violation:" + sig)
         e = self._known(sig)
         if e is not None:
+            first = not any(k["entry"] == e["signature"] for k in self.known_hits)
             if not any(k["signature"] == sig for k in self.known_hits):
-                self.known_hits.append({"signature": sig, "what": e["what"], "instance": what[:400]})
+                self.known_hits.append({"signature": sig, "entry": e["signature"], "what": e["what"], "instance": what[:400]})
+            if first:
                 self.log(f"KNOWN-FINDING: property={self.prop} {e['what']} [sig={sig}]")
             return False
         self._replay_n += 1
